@@ -962,12 +962,12 @@ fn scale(tier: Tier, totals: &mut Totals) {
             }
         }
     }
-    let sizes: Vec<u64> = with_thresholds(tier.pick(vec![10, 70, 300, 4000], vec![10, 70, 300, 1000, 4000, 20000]), tier.pick(1024, 8192));
+    let sizes: Vec<u64> = with_thresholds(tier.pick(vec![10, 70, 300, 4000, 6000], vec![10, 70, 300, 1000, 4000, 6000, 12000, 24000]), tier.pick(1024, 8192));
     for &n in &sizes {
         let tri = (n * (n + 1) / 2).to_string();
         // array: push n items, read the ends, join, pop everything
         let text = format!(
-            "a = array\ni = set 0\nwhile less_than ${{i}} {n}\ni = calc ${{i}} + 1\narray_push ${{a}} ${{i}}\nend\nlen = array_length ${{a}}\nfirst = array_get ${{a}} 0\nlastv = array_get ${{a}} {last}\nbeyond = array_get ${{a}} {n}\njoined = array_join ${{a}} ,\njl = length ${{joined}}\nhas = array_contains ${{a}} {n}\ns2 = set_from_array ${{a}}\nss = set_size ${{s2}}\nc2 = array_concat ${{a}} ${{a}}\ncl = array_length ${{c2}}\nrelease ${{s2}}\nrelease ${{c2}}\nsum = set 0\nwhile not array_is_empty ${{a}}\nx = array_pop ${{a}}\nsum = calc ${{sum}} + ${{x}}\nend\nlen_after = array_length ${{a}}\nrel = release ${{a}}\nalive = is_array ${{a}}",
+            "a = array\ni = set 0\nwhile less_than ${{i}} {n}\ni = calc ${{i}} + 1\narray_push ${{a}} ${{i}}\nend\nlen = array_length ${{a}}\nfirst = array_get ${{a}} 0\nlastv = array_get ${{a}} {last}\nbeyond = array_get ${{a}} {n}\njoined = array_join ${{a}} ,\njl = length ${{joined}}\nhas = array_contains ${{a}} {n}\nrg = range 0 {n}\nrl = array_length ${{rg}}\nrlast = array_get ${{rg}} {last}\nrs = set 0\nfor x in ${{rg}}\nrs = calc ${{rs}} + ${{x}}\nend\nrc = array_contains ${{rg}} {last}\nrelease ${{rg}}\ns2 = set_from_array ${{a}}\nss = set_size ${{s2}}\nc2 = array_concat ${{a}} ${{a}}\ncl = array_length ${{c2}}\nrelease ${{s2}}\nrelease ${{c2}}\nsum = set 0\nwhile not array_is_empty ${{a}}\nx = array_pop ${{a}}\nsum = calc ${{sum}} + ${{x}}\nend\nlen_after = array_length ${{a}}\nrel = release ${{a}}\nalive = is_array ${{a}}",
             n = n,
             last = n - 1
         );
@@ -984,6 +984,10 @@ fn scale(tier: Tier, totals: &mut Totals) {
                 ("jl", Some(joined_len.to_string())),
                 ("has", Some((n - 1).to_string())),
                 ("ss", Some(n.to_string())),
+                ("rl", Some(n.to_string())),
+                ("rlast", Some((n - 1).to_string())),
+                ("rs", Some((n * (n - 1) / 2).to_string())),
+                ("rc", Some((n - 1).to_string())),
                 ("cl", Some((2 * n).to_string())),
                 ("sum", Some(tri.clone())),
                 ("len_after", Some("0".into())),
@@ -1073,7 +1077,7 @@ pub fn replay(case: &Value) -> Result<String, String> {
     Ok(out.join("\n"))
 }
 
-pub const RULE: &str = "explicit-state breadth-first search from the empty handle table: creators (array, range, map, set_new, set_from_array, array_concat, set_to_array, map_keys), every mutator and query of the statement, is_array/is_map/is_set, release and release -r, each given every live handle, a released handle, an unknown text and a text that looks like a handle, indexes {0,1,2,-1,x}, values {a, empty, 'b c', 0 (, false, look-alike handle, e-acute)} and the handle of the collection itself or of the other live collection as array item, set member, map key and map value (release -r follows such references); growing operations are disabled at 2 live handles / length 2 so the space is finite and searched to a fixpoint. Each transition runs the real command, compares its output with the model (vector / map / set per live handle) and then the complete handle table (every collection equal to the model, no other entry) and the variable map (must stay empty). States are de-duplicated on the multiset of collection contents plus the implementation's remaining state. evaluations = transitions; distinct_nontrivial = distinct states. Scale cases (scripts, results computed in Rust): an array / a map / a set with 10/70/300 (thorough 1000, 3000) items built, read at both ends, joined, searched, emptied; as many live handles held by one outer array and taken by a recursive release. Index texts: 23 texts (signs, blanks, fractions, other digits, beyond the machine word) x arrays of 0/1/3 items through array_get / array_set / array_remove against usize parsing. Joins of non-ASCII items and separators. The quick sizes include 4000 items (thorough 20000), with set_from_array and array_concat of the big array. Variadic calls: array_concat with 2, 3, 1, 4, 2 collections in one run, in every rotation, then a failing call and set_from_array. Fixed cases run at the threshold sizes (p-1, p, p+1 around powers of two and ten), each script in a child process. Recursive release: every combination of array / map / set over three and four levels, each holding the handle of the next, released from the top with -r: no level is left, a bystander is";
+pub const RULE: &str = "explicit-state breadth-first search from the empty handle table: creators (array, range, map, set_new, set_from_array, array_concat, set_to_array, map_keys), every mutator and query of the statement, is_array/is_map/is_set, release and release -r, each given every live handle, a released handle, an unknown text and a text that looks like a handle, indexes {0,1,2,-1,x}, values {a, empty, 'b c', 0 (, false, look-alike handle, e-acute)} and the handle of the collection itself or of the other live collection as array item, set member, map key and map value (release -r follows such references); growing operations are disabled at 2 live handles / length 2 so the space is finite and searched to a fixpoint. Each transition runs the real command, compares its output with the model (vector / map / set per live handle) and then the complete handle table (every collection equal to the model, no other entry) and the variable map (must stay empty). States are de-duplicated on the multiset of collection contents plus the implementation's remaining state. evaluations = transitions; distinct_nontrivial = distinct states. Scale cases (scripts, results computed in Rust): an array / a map / a set with 10/70/300 (thorough 1000, 3000) items built, read at both ends, joined, searched, emptied; as many live handles held by one outer array and taken by a recursive release. Index texts: 23 texts (signs, blanks, fractions, other digits, beyond the machine word) x arrays of 0/1/3 items through array_get / array_set / array_remove against usize parsing. Joins of non-ASCII items and separators. The quick sizes include 4000 items (thorough 20000), with set_from_array and array_concat of the big array. Variadic calls: array_concat with 2, 3, 1, 4, 2 collections in one run, in every rotation, then a failing call and set_from_array. Fixed cases run at the threshold sizes (p-1, p, p+1 around powers of two and ten), each script in a child process. Recursive release: every combination of array / map / set over three and four levels, each holding the handle of the next, released from the top with -r: no level is left, a bystander is The big-array case also builds range 0 n (its length, last item, sum through for/in and array_contains of the last value).";
 pub const ASSUMPTIONS: &[&str] = &["listings whose order the documentation does not fix (map_keys, set_to_array) are compared as multisets and then sorted in place by the harness", "random handle names are opaque; a collision of two 20-character random names is outside the model", "operations are run through run_instruction with already-bound arguments"];
 pub const EXHAUSTIVE: bool = true;
 pub const WALL_CAP_S: (u64, u64) = (50, 1500);
